@@ -28,11 +28,13 @@ structure Mono (s : State) : Prop where
   /-- per source, waiting ages are non-decreasing in arrival order -/
   sorted : s.mbox.Pairwise (fun m m' => m.1 = m'.1 → m.2 ≤ m'.2)
 
-theorem mono_initial (R sync target : Nat) (ages : List Nat) (archAge : Nat) :
-    Mono (initial R sync target ages archAge) :=
-  { src := by intro m hm; simp [initial] at hm
-    ge := by intro m hm; simp [initial] at hm
-    sorted := by simp [initial] }
+theorem initial_mbox (R sync n : Nat) (ages : List Nat) : (initial R sync n ages).mbox = [] := by
+  unfold initial; split <;> rfl
+
+theorem mono_initial (R sync n : Nat) (ages : List Nat) : Mono (initial R sync n ages) :=
+  { src := by intro m hm; simp [initial_mbox] at hm
+    ge := by intro m hm; simp [initial_mbox] at hm
+    sorted := by simp [initial_mbox] }
 
 theorem takeFrom_sublist {src a : Nat} {l rest : List (Nat × Nat)} (h : takeFrom src l = some (a, rest)) :
     rest.Sublist l ∧ rest.length + 1 = l.length := by
@@ -110,6 +112,24 @@ theorem mono_step0 {s s' : State} {a : Action} (inv : Inv s) (mono : Mono s) (h 
   | probeExit r h hq hb => exact ⟨mono.src, mono.ge, mono.sorted⟩
   | probeSomeF r q h hq => exact ⟨mono.src, mono.ge, mono.sorted⟩
   | probeDone r h hq => exact ⟨mono.src, mono.ge, mono.sorted⟩
+  | collectNext r src a rest h ht hk =>
+    obtain ⟨hsub, _⟩ := takeFrom_sublist ht
+    refine ⟨fun m hm => mono.src m (hsub.subset hm), ?_, mono.sorted.sublist hsub⟩
+    intro m hm
+    show ((s.table.set src (some a)).getD m.1 none).getD 0 ≤ m.2
+    rw [tab_set]
+    split
+    · rename_i e; exact takeFrom_least mono.sorted ht m hm e.1.symm
+    · exact mono.ge m (hsub.subset hm)
+  | collectLast r src a rest h ht hk =>
+    obtain ⟨hsub, _⟩ := takeFrom_sublist ht
+    refine ⟨fun m hm => mono.src m (hsub.subset hm), ?_, mono.sorted.sublist hsub⟩
+    intro m hm
+    show ((s.table.set src (some a)).getD m.1 none).getD 0 ≤ m.2
+    rw [tab_set]
+    split
+    · rename_i e; exact takeFrom_least mono.sorted ht m hm e.1.symm
+    · exact mono.ge m (hsub.subset hm)
   | recv r src a rest h ht =>
     obtain ⟨hsub, _⟩ := takeFrom_sublist ht
     refine ⟨fun m hm => mono.src m (hsub.subset hm), ?_, mono.sorted.sublist hsub⟩
@@ -204,7 +224,7 @@ theorem tableSum_set_ge (t : List (Option Nat)) (i v : Nat) (h : (t.getD i none)
   · have := tableSum_set t i v hi; omega
   · rw [List.set_eq_of_length_le (by omega)]; exact Nat.le_refl _
 
-/-- what the transitions do to `sum(total_age.values())`, rank 0's mailbox length and `R`, `target` -/
+/-- what the transitions do to `sum(total_age.values())`, rank 0's mailbox length and `R`, `numSteps` -/
 theorem tableSum_step0 {s s' : State} {a : Action} (inv : Inv s) (mono : Mono s) (h : Step0 s a s') :
     tableSum s.table ≤ tableSum s'.table := by
   cases h with
@@ -218,6 +238,12 @@ theorem tableSum_step0 {s s' : State} {a : Action} (inv : Inv s) (mono : Mono s)
   | probeExit r h hq hb => exact Nat.le_refl _
   | probeSomeF r q h hq => exact Nat.le_refl _
   | probeDone r h hq => exact Nat.le_refl _
+  | collectNext r src a rest h ht hk =>
+    apply tableSum_set_ge
+    exact mono.ge (src, a) (takeFrom_spec ht).1
+  | collectLast r src a rest h ht hk =>
+    apply tableSum_set_ge
+    exact mono.ge (src, a) (takeFrom_spec ht).1
   | recv r src a rest h ht =>
     apply tableSum_set_ge
     exact mono.ge (src, a) (takeFrom_spec ht).1
